@@ -147,6 +147,23 @@ fn multiplier(r: &mut Runner) -> f64 {
 }
 
 pub fn generate(r: &mut Runner) {
+
+    // HUGE positive scalars (0.61..0.75 × 1e308, above f64::MAX / 3) for the composites with a scalar path: the hand-wired
+    // public parts stay finite there (|multiplier| <= 0.5), so must the composite
+    for name in ["MovingAverageConvergenceDivergence", "PercentagePriceOscillator", "KeltnerChannel"] {
+        // (only the composites whose definition is LINEAR in the prices: squares overflow legitimately at this magnitude)
+        for rep in 0..(if r.tier == Tier::Quick { 4 } else { 40 }) {
+            let (np, nm) = crate::ind::arity(name).unwrap();
+            let ps: Vec<usize> = (0..np).map(|_| gen::period(&mut r.rng, if rep % 2 == 0 { 5 } else { 40 })).collect();
+            let ms: Vec<f64> = (0..nm).map(|_| *r.rng.pick(&[0.5, -0.5, 0.25, 0.0])).collect();
+            let mut c = Case::new("C15", "huge-positive-scalars", name, &ps, &ms);
+            let n = r.rng.range(2, 40);
+            for _ in 0..n {
+                c.ops.push(Op::Next(1e308 * (0.61 + 0.14 * r.rng.unit())));
+            }
+            r.run(c, true);
+        }
+    }
     let cases = if r.tier == Tier::Quick { 640 } else { 24000 };
     r.log_every = if r.tier == Tier::Quick { 7 } else { 307 };
     let maxlen = if r.tier == Tier::Quick { 400 } else { 3000 };
@@ -173,4 +190,4 @@ pub fn generate(r: &mut Runner) {
     }
 }
 
-pub const RULE: &str = "8 composites × periods to 200 × multipliers (a third each: the dyadic set {0.5,1,2,3,10,0,-1,-2.5}; decimal factors not representable in binary/f32 {2.1,1.3,1.618,1/3,0.1,2.2,2.3,1.9,0.7,2.00001,3.3,-1.1,-0.3,sqrt 2,e,1e-3,7.77}; uniformly random 53-bit values in [−4,12)) × finite scalar streams (half strictly positive, half of any sign — centred on zero with probability 1/2 — for every composite with a scalar path, PPO included: its division by the slow EMA is judged whenever M/|slow EMA| <= 1e6, negative slow EMAs too) / valid bars with close != (high+low)/2 in 9 regimes; at every step the composite's outputs are compared with separately constructed PUBLIC parts (SMA, StandardDeviation, MAD, FastStochastic, EMA×3, TrueRange, ATR, Minimum, Maximum) fed the same stream and combined as documented: tau(t)·M (×condition number for PPO and CCI, on variances for the Bollinger half-width). Non-trivial = longer than the largest period.";
+pub const RULE: &str = "huge-positive-scalars stage: MACD, PPO and KeltnerChannel (definitions linear in the prices) fed 2..40 values in 0.61..0.75×1e308 with |multiplier| <= 0.5 (parts and composite must both stay finite and agree); then: 8 composites × periods to 200 × multipliers (a third each: the dyadic set {0.5,1,2,3,10,0,-1,-2.5}; decimal factors not representable in binary/f32 {2.1,1.3,1.618,1/3,0.1,2.2,2.3,1.9,0.7,2.00001,3.3,-1.1,-0.3,sqrt 2,e,1e-3,7.77}; uniformly random 53-bit values in [−4,12)) × finite scalar streams (half strictly positive, half of any sign — centred on zero with probability 1/2 — for every composite with a scalar path, PPO included: its division by the slow EMA is judged whenever M/|slow EMA| <= 1e6, negative slow EMAs too) / valid bars with close != (high+low)/2 in 9 regimes; at every step the composite's outputs are compared with separately constructed PUBLIC parts (SMA, StandardDeviation, MAD, FastStochastic, EMA×3, TrueRange, ATR, Minimum, Maximum) fed the same stream and combined as documented: tau(t)·M (×condition number for PPO and CCI, on variances for the Bollinger half-width). Non-trivial = longer than the largest period.";
